@@ -80,3 +80,23 @@ Fixpoint rounds (n : nat) (k : nat) : list nat :=
 
 Definition result_of (c : cst) (i : nat) : option out1 :=
   match nth_error (pcs c) i with Some (PDone r) => Some r | _ => None end.
+
+(* ---------- progress: no lookup waits forever ----------
+   [phi] bounds the work that is left: a thread that has not reached its lock() owes the acquisition, a
+   whole scan and the lookup; a holder owes the rest of its scan and the lookup.  [log] is the log level
+   of the configuration (off .. trace): it is carried by the configuration and consulted by NOTHING in
+   the model — what is logged, and whether, has no influence on locks, answers or the directory. *)
+Definition cost (scan : nat) (p : pc) : nat :=
+  match p with PStart => S (S scan) | PHolding n => S n | PDone _ => O end.
+
+Definition phi (scan : nat) (c : cst) : nat := fold_right (fun p a => (cost scan p + a)%nat) O (pcs c).
+
+Definition is_done (p : pc) : bool := match p with PDone _ => true | _ => false end.
+Definition all_done (c : cst) : bool := forallb is_done (pcs c).
+
+Inductive loglevel := LogOff | LogError | LogWarn | LogInfo | LogDebug | LogTrace.
+
+Record conc_config := { cc_scan : nat; cc_log : loglevel }.
+
+Definition crun_cfg (cfg : conc_config) (ops : list op) (c : cst) (sched : list nat) : cst :=
+  crun ops (cc_scan cfg) c sched.
